@@ -321,6 +321,7 @@ type Global struct {
 	CurrentThread *LState
 	Registry      *LTable
 	Global        *LTable
+	loading       *LUserData // marker require keeps in package.loaded[name] while a module loads
 
 	builtinMts map[int]LValue
 	tempFiles  []*os.File
